@@ -55,9 +55,13 @@ def r_cli_flags(repo, rep, R='R16.3'):
                                   'beam option `%s` is overwritten after the command line was parsed (`%s`): the user\'s setting does not reach the search' % (t.attr, src(n)[:60]))
     rep.ok(R, w, 'no code overwrites args.beta / args.pruning_size / args.disable_beta after parsing', nontrivial=False)
     os_ = flags.get('--disable-beta', [])
-    ok = bool(os_) and {o.lang for o in os_} >= set(langs) and all(o.const('action') == 'store_true' and 'dest' not in o.kw and 'default' not in o.kw for o in os_)
-    rep.check(ok, R, w, 'cli:--disable-beta', '--disable-beta is a store_true flag (default: filter on)',
+    from ..cli import switch_semantics
+    sem = switch_semantics(repo, '--disable-beta')
+    # a plain switch, for every language: what it stands for is judged together with how main reads it (main:kwargs:use_beta)
+    ok = bool(os_) and {o.lang for o in os_} >= set(langs) and bool(sem) and all(s_ is not None and s_[2] != s_[3] for s_ in sem)
+    rep.check(ok, R, w, 'cli:--disable-beta', '--disable-beta is a boolean switch (%s)' % sem,
               '--disable-beta is declared as %s' % desc(os_))
+    opts |= {s_[1] for s_ in sem if s_ is not None}
 
 
 def check(repo, rep, tier):
